@@ -117,17 +117,18 @@ Qed.
 (* a trace of cleanup pairs whose directories satisfy Q *)
 Inductive ctrace (Q : dirent -> Prop) : list event -> Prop :=
 | ct_nil : ctrace Q []
-| ct_cons : forall d lv ok t, Q d -> ctrace Q t -> ctrace Q (EvUnmount d lv ok :: EvRmDir d :: t).
+| ct_cons : forall d lv ok t, Q d -> (lv = true -> exists id, d = DId id) -> ctrace Q t ->
+            ctrace Q (EvUnmount d lv ok :: EvRmDir d :: t).
 
 Lemma ctrace_app Q l1 l2 : ctrace Q l1 -> ctrace Q l2 -> ctrace Q (l1 ++ l2).
 Proof. induction 1; simpl; auto. intros. constructor; auto. Qed.
 
-Lemma ctrace_selfd (P Q : dirent -> Prop) l : (forall d, Q d -> P d) -> ctrace Q l -> selfd P l.
+Lemma ctrace_selfd (P Q : dirent -> Prop) l : (forall id, Q (DId id) -> P (DId id)) -> ctrace Q l -> selfd P l.
 Proof.
-  intros PQ. induction 1 as [|d lv ok t Qd CT IH].
+  intros PQ. induction 1 as [|d lv ok t Qd Lv CT IH].
   - apply selfd_nil.
   - change (selfd P ([EvUnmount d lv ok; EvRmDir d] ++ t)). apply selfd_app; auto.
-    apply selfd_pair. auto.
+    apply selfd_pair. intros T. destruct (Lv T) as [id ->]. auto.
 Qed.
 
 Lemma cleanup_dirs_spec ub ds : forall s,
@@ -149,7 +150,7 @@ Proof.
     + intros x. rewrite D2, D, rm_dirent_in. simpl. split.
       * intros [[A B] C]. split; auto. intros [F|F]; [congruence|contradiction].
       * intros [A B]. split; [split|]; auto; intros F; apply B; auto.
-    + simpl. constructor; [left; reflexivity|].
+    + simpl. constructor; [left; reflexivity|intros T; destruct (L T) as [id [Q _]]; eauto|].
       clear -CT. induction CT; constructor; auto; right; assumption.
     + intros x H N. apply K2.
       * apply K; auto; intros F; apply N; left; auto.
